@@ -465,6 +465,43 @@ func checkC13(c *vlib.Ctx) (string, string) {
 			return c13Case{Pattern: s, Valid: ref.PatternVerdict(s) == ref.PatValid, How: "small scope"}
 		})
 	})
+	// every length: scheme 1..70, one label 1..70 in first / middle / last position, total host length 1..260 with
+	// and without a trailing dot and a wildcard, judged by the reference recogniser
+	var lengthCases int64
+	tryLen := func(s string) {
+		lengthCases++
+		switch ref.PatternVerdict(s) {
+		case ref.PatValid:
+			ck.Try(c13Case{Pattern: s, Valid: true, How: "length sweep, reference recogniser says valid"})
+		case ref.PatInvalid:
+			ck.Try(c13Case{Pattern: s, How: "length sweep, reference recogniser says invalid"})
+		}
+	}
+	for n := 1; n <= 70; n++ {
+		tryLen("s" + strings.Repeat("c", n-1) + "://example.com")
+		tryLen("s" + strings.Repeat("c", n-1) + "://*.example.com:*")
+		l := strings.Repeat("l", n)
+		for _, h := range []string{l + ".example.com", "a." + l + ".com", "a.example." + l, l, "a.example." + l + ".", "*." + l + ".com", "*.a." + l} {
+			tryLen("https://" + h)
+			tryLen("ab://" + h + ":8080")
+		}
+	}
+	for total := 1; total <= 260; total++ {
+		// labels of 50 bytes, the last one as long as needed (1..50)
+		var b strings.Builder
+		for b.Len()+51 < total {
+			b.WriteString(strings.Repeat("d", 50) + ".")
+		}
+		b.WriteString(strings.Repeat("e", total-b.Len()))
+		h := b.String()
+		for _, v := range []string{h, h + ".", "*." + h, "*." + h + "."} {
+			tryLen("https://" + v)
+			tryLen("https://" + v + ":65535")
+		}
+	}
+	c.States.Add(lengthCases)
+	c.Transitions.Add(lengthCases)
+	c.Set("length_sweep_strings", lengthCases)
 	// every byte value inserted at, and substituted into, every position of a few patterns (lookup tables and byte
 	// classes have 256 entries; the small scope above only reaches 14 of them)
 	var byteCases int64
